@@ -22,6 +22,20 @@ MARK = b"<#SEP#>"
 
 
 def gen_case(rng):
+    if rng.random() < 0.03:
+        # a log of several codec blocks (bzip2 level 1 = 100 kB blocks; LZ4 64 KiB blocks ...): decoders hand data back in
+        # pieces that do not line up with the read blocks
+        import world
+        bsz = rng.choice((4096, 16384, 65536))
+        content, msgs = world.gen_big_text_log(rng, rng.choice((150_000, 260_000, 420_000)), line_len=rng.choice(((60, 300), (200, 1200))))
+        kind = rng.choice(("bz2", "bz2", "gz", "xz", "lz4"))
+        if kind == "bz2":
+            stored, descr = world.to_bz2(content, 1), {"kind": "bz2", "level": 1}
+        else:
+            stored, descr = world.random_container(rng, kind, content, mtime=0, name="big.log")
+        srcs = [merge.Source("big.log" + world.SUFFIX[kind], "text", msgs, stored, content, kind, descr)]
+        opts = ["--color", "never", "--blocksz", str(bsz), "--tz-offset", "+00:00"]
+        return bsz, srcs, opts, b"", 0.0
     r = rng.random()
     if r < 0.6:
         bsz = rng.randint(64, 512)
